@@ -371,5 +371,7 @@ def run(F, rep, tier):
     rule_r2(F, rep)
     rule_r3(F, rep)
     rule_r4(F, rep)
+    from . import c14
+    c14.rule_r8(F, rep)      # error spans end at the lexer cursor (inside the source)
     rep.assume("the SpanId bit-packing round trip, line/column computation and rendering inside `sourceannot` are not decided")
     return EXPLANATION
